@@ -122,16 +122,20 @@ def should_strip_query_item(
 
     value = item[1]
 
+    # NOTE: like the keys, the values of the combos are matched whatever their
+    # case ("ref=FB"), else lowercasing a url changes what is filtered out
+    folded_value = value.lower() if value is not None else None
+
     if key in IRRELEVANT_QUERY_COMBOS:
         result = IRRELEVANT_QUERY_COMBOS[key]
         if callable(result):
             return result(value)
-        return value in IRRELEVANT_QUERY_COMBOS[key]
+        return folded_value in IRRELEVANT_QUERY_COMBOS[key]
 
     # NOTE: only keep elif because query combos and amp query combos
     # are mutually exclusive.
     elif normalize_amp and key in AMP_QUERY_COMBOS:
-        return value in AMP_QUERY_COMBOS[key]
+        return folded_value in AMP_QUERY_COMBOS[key]
 
     # NOTE: a domain filter must not shadow the caller's own filter
     if domain_filter is not None and domain_filter(key, value):
